@@ -261,7 +261,7 @@ def _pump_tracking(drv, handler_jobs):
     if is_line:
         new = list(drv.gw.tasks.queue)[before - 1:]
         for func, args in new:
-            if getattr(func, "__name__", "") != "logic":
+            if getattr(func, "__name__", "") != "logic" and drv.pure_job(func):
                 try:
                     handler_jobs.append(drv._cmd(func(*args)))
                 except Exception:  # pylint: disable=broad-except
